@@ -104,7 +104,7 @@ func Check(prop string) int {
 			budgetHit = true
 			break
 		}
-		j := Job{Pair: p, Kind: "pair", C10: c10, Quick: tier != "thorough"}
+		j := Job{Pair: p, Kind: "pair", C10: c10, Quick: tier != "thorough" && os.Getenv("VERIF_EC_CONT") != "full"}
 		b, _ := json.Marshal(&j)
 		wg.Add(1)
 		pool.Submit(&kernel.Request{ID: i, Cfg: b}, collect(p))
@@ -322,7 +322,7 @@ func Check(prop string) int {
 		"injected_failures":        tot.FailRuns,
 		"crash_continuations":      tot.Continuations,
 		"crash_states_continued":   tot.ContStates,
-		"continuation_scope":       contScope(tier),
+		"continuation_scope":       contScope(contTier(tier)),
 		"counted_calls":            tot.Calls,
 		"lint_ops":                 lintOps,
 		"lint_calls":               tot.LintCalls,
@@ -374,8 +374,8 @@ func Check(prop string) int {
 				fmt.Fprintln(os.Stderr, "evidence:", err)
 			}
 		}
-		fmt.Printf("C08: pairs=%d/%d crash_points=%d (recovered %d distinct contents) injected_failures=%d lint_ops=%d victim_runs=%d findings=%d signatures=%d violations=%d known=%d exhaustive=%v wall=%.1fs\n",
-			okPairs, len(pairs), tot.CrashStates, tot.CrashRecover, tot.FailRuns, lintOps, tot.VictimRuns, len(findings), len(order), nviol, nknown, exhaustive, wall)
+		fmt.Printf("C08: pairs=%d/%d crash_points=%d (recovered %d distinct contents) injected_failures=%d continuations=%d (on %d crash states) lint_ops=%d victim_runs=%d findings=%d signatures=%d violations=%d known=%d exhaustive=%v wall=%.1fs\n",
+			okPairs, len(pairs), tot.CrashStates, tot.CrashRecover, tot.FailRuns, tot.Continuations, tot.ContStates, lintOps, tot.VictimRuns, len(findings), len(order), nviol, nknown, exhaustive, wall)
 	}
 	if len(harness) > 0 {
 		for i, hmsg := range harness {
@@ -524,8 +524,15 @@ func exampleCases(r *Result) []map[string]interface{} {
 	return out
 }
 
+func contTier(tier string) string {
+	if os.Getenv("VERIF_EC_CONT") == "full" {
+		return "thorough"
+	}
+	return tier
+}
+
 func contScope(tier string) string {
-	base := "every distinct (by directory content) crash state that reopens cleanly is used further: a child process opens it with the real code, runs a script to completion and closes; the directory is reopened and compared with the model advanced by the steps reported successful (chain, flags, every acknowledged byte of the history and of the script, retained chain-member user snapshots by revert-on-copy, revision counter = value at restart + acknowledged writes; a step that succeeds must be allowed by the model; a retry must succeed within two attempts when the effect is absent). Scripts: S1-retry = the interrupted operation twice with its original arguments; S2-detour = Snapshot(auto,c1), aligned write, the interrupted operation with its original arguments, write; S3-revert = write, revert to the latest retained user snapshot of the chain. "
+	base := "every distinct (by directory content) crash state that reopens cleanly is used further: a child process opens it with the real code, runs a script to completion and closes; the directory is reopened and compared with the model advanced by the steps reported successful (chain, flags, every acknowledged byte of the history and of the script, retained chain-member user snapshots by revert-on-copy, revision counter = value at restart + acknowledged writes; a step that reports success where the model does not allow it (retry of an already committed operation) must have been a no-op; a retry must succeed within two attempts when the effect is absent). Scripts: S1-retry = the interrupted operation twice with its original arguments; S2-detour = Snapshot(auto,c1), aligned write, the interrupted operation with its original arguments, write; S3-revert = write, revert to the latest retained user snapshot of the chain. "
 	if tier == "thorough" {
 		return base + "Thorough: crash states of Snapshot(user/auto), RemoveDiffDisk, Revert, ReplaceDisk, Resize, Create; scripts S1, S2, S3."
 	}
